@@ -8,6 +8,7 @@ package main
 import (
 	"bytes"
 	"fmt"
+	"sync"
 
 	"github.com/sarchlab/akita/v4/mem/mem"
 	"github.com/sarchlab/akita/v4/sim"
@@ -17,6 +18,9 @@ import (
 	"verif/mc/harness"
 	"verif/mc/world"
 )
+
+// driver.Init bumps a package-global counter without synchronisation (a C12 matter); serialise it here.
+var initMu sync.Mutex
 
 type mig struct {
 	at       int // which PMC receives the request (0 = A, 1 = B); it pulls from the other one
@@ -255,8 +259,10 @@ func main() {
 		"no other agent writes the source or destination page while it migrates (the driver drains and shoots down first)",
 		"the inter-PMC network is FIFO per direction; delays and stalls are explored",
 		"page sizes are multiples of the 64-byte transfer unit",
-		"driver-side mapping update (page table after migration) is covered by the C10 history search, not here",
+		"driver side: the command processors acknowledge every command exactly once (order and delay explored) and perform the page copy when they receive PageMigrationReqToCP; the MMU hands over a request only through the driver's 1-entry MMU port",
 	}
+	scs = append(scs, driverScenarios(r)...)
+	r.Quiet = true
 	r.RunScenarios(scs)
 	r.Finish()
 }
